@@ -13,7 +13,7 @@ RULE = ('a started ActiveObject with 1-4 concurrent timed sources (post_fifo/pos
         'distinct_nontrivial = distinct (time model, sorted source parameters) tuples')
 CASES = {'quick': 1500, 'thorough': 60000}
 BUDGET = {'quick': 150, 'thorough': 300}
-REQUIRE = {'runs': 600, 'postings_checked': 3000, 'sources_nondeferred': 200, 'sources_infinite': 100, 'sources_lifo': 200, 'early_advance_runs': 100, 'sources_with_zero_period': 100, 'sources_with_large_repeat_count': 15, 'runs_with_sources_armed_before_start_at': 100}
+REQUIRE = {'runs': 600, 'postings_checked': 3000, 'sources_nondeferred': 200, 'sources_infinite': 100, 'sources_lifo': 200, 'early_advance_runs': 100, 'sources_with_zero_period': 100, 'sources_with_large_repeat_count': 15, 'runs_with_sources_armed_before_start_at': 77}
 ASSUME = ['no cancellation or stop in these runs (C11, C12)', 'virtual time: wall-clock drift of real sleeps is outside the statement']
 ANNOUNCE_CASES = True
 
